@@ -459,3 +459,126 @@ func TestC12Chain3(t *testing.T) {
 			rep.Floor("paths", 6, rep.Nontrivial)
 		})
 }
+
+// TestC12Seams: the previous connection of the client goes away exactly between two steps of the take-over (after the
+// manager looked its record up, after it removed that record, after it created the new one). Whatever the interleaving,
+// the new connection is accepted and the identifier resolves to it alone.
+func TestC12Seams(t *testing.T) {
+	type sp struct {
+		Placement int    `json:"new_session_node"`
+		Seam      string `json:"between"`
+		Action    string `json:"previous_connection"`
+	}
+	var paths []sp
+	for _, pl := range []int{1, 2} {
+		for _, seam := range []string{"lookup", "delete", "create"} {
+			for _, a := range []string{"disconnects", "drops", "pings", "nothing"} {
+				paths = append(paths, sp{pl, seam, a})
+			}
+		}
+	}
+	RunPaths(t, "C12", "C12/takeover-seams", "TestC12Seams", len(paths), vk.Pick(4*time.Minute, 10*time.Minute),
+		func(t *testing.T, i int, rep *vk.Report) {
+			p := paths[i]
+			RunBubble(t, fmt.Sprintf("p%d", i), func(t *testing.T) {
+				w := NewWorld(t, 2)
+				defer w.Close()
+				viol := func(sig, format string, a ...any) {
+					rep.Violate(vk.Violation{Sig: sig, Msg: fmt.Sprintf("%+v: ", p) + fmt.Sprintf(format, a...), Replay: p})
+				}
+				c1 := w.NewClient("c1", 1, AckAll)
+				if c1.Connect(ConnectOpts{ClientID: "X", KeepAlive: 600, WillTopic: "will/x", WillMsg: "c1-gone"}) != 0 {
+					rep.HarnessError("c1 connect")
+					return
+				}
+				c1.Subscribe(1, 0, "old/#")
+				w.Step()
+				s1 := c1.SessionID
+				fired := false
+				w.Seam = func(n *Node, op, arg string) {
+					if fired || int(n.ID) != p.Placement || op != p.Seam {
+						return
+					}
+					if op == "lookup" && arg != "X" || op == "delete" && arg != s1 {
+						return
+					}
+					fired = true
+					switch p.Action {
+					case "disconnects":
+						c1.Disconnect()
+					case "drops":
+						c1.Drop()
+					case "pings":
+						c1.Ping()
+					}
+					time.Sleep(200 * time.Millisecond) // the manager's goroutine is held while the other connection is served
+				}
+				c2 := w.NewClient("c2", p.Placement, AckAll)
+				rc := c2.Connect(ConnectOpts{ClientID: "X", KeepAlive: 600})
+				w.Step()
+				w.Seam = nil
+				if rc != 0 && c2.Count("CONNACK(0)") == 1 {
+					rc = 0 // the CONNACK came after the pause
+					w.mu.Lock()
+					c2.SessionID = w.lastSessionID
+					w.mu.Unlock()
+				}
+				if !fired {
+					rep.HarnessError("the seam %q was never reached on node %d", p.Seam, p.Placement)
+					return
+				}
+				if rc != 0 {
+					viol("c12-new-session-refused:seam", "the previous connection %s right after the manager's %s step: the new connection got CONNACK code %d (-1 = none, connection closed=%v)", p.Action, p.Seam, rc, c2.BrokerClosed())
+					return
+				}
+				s2 := c2.SessionID
+				w.Step()
+				w.Idle(2 * time.Second)
+				// the new session is served
+				c2.Ping()
+				w.Step()
+				if c2.BrokerClosed() || c2.Count("PINGRESP") != 1 {
+					viol("c12-new-session-not-served:seam", "after the take-over the new session's PINGREQ was not answered (closed=%v)", c2.BrokerClosed())
+					return
+				}
+				// the old one is not (once its node knows of the new one; all gossip has been delivered by now)
+				if p.Action == "pings" || p.Action == "nothing" {
+					before := c1.Count("PINGRESP")
+					c1.Ping()
+					w.Step()
+					if c1.Count("PINGRESP") != before {
+						viol("c12-displaced-session-still-served:seam", "the displaced session's PINGREQ was answered after every node learned of the new session")
+						return
+					}
+				}
+				w.Idle(2 * time.Second)
+				for _, n := range w.Nodes {
+					live := []string{}
+					for _, s := range n.DState.SessionMetadatas().All() {
+						if s.ClientID == "X" {
+							live = append(live, s.SessionID)
+						}
+					}
+					if len(live) != 1 || live[0] != s2 {
+						viol("c12-identifier-does-not-resolve-to-new-session:seam", "node %d lists sessions %v for the client identifier; the new session is %s (the old one was %s)", n.ID, live, s2, s1)
+						return
+					}
+					for _, s := range n.DState.Subscriptions().All() {
+						if s.SessionID == s1 {
+							viol("c12-old-subscription-left:seam", "node %d still lists the displaced session's subscription %s", n.ID, s.Pattern)
+							return
+						}
+					}
+				}
+				Observe(w, rep)
+				MarkNontrivial(fmt.Sprint(p))
+				rep.Nontrivial++
+				rep.Sample(p)
+			})
+		},
+		func(i int) any { return paths[i] },
+		func(rep *vk.Report) {
+			rep.Rule = "paths = new connection on node {1,2} x seam {after the manager looked the old record up, after it removed it, after it created the new one} x what the previous connection does at that very point {DISCONNECT, drop, PINGREQ, nothing}; the manager's goroutine is held at the seam while the other connection is served; the new connection must be accepted and served, the identifier must resolve to it alone on both nodes, the old session's subscriptions must be gone"
+			rep.Floor("paths", 20, rep.Nontrivial)
+		})
+}
